@@ -27,6 +27,12 @@ theorem CEdge.le_of_lt {a b : CEdge} (h : a.lt b = true) : a.le b := by
 
 theorem CEdge.le_of_not_lt {a b : CEdge} (h : a.lt b = false) : b.le a := h
 
+theorem sqDist_comm (a b : Node) : sqDist a b = sqDist b a := by
+  unfold sqDist
+  have h : ∀ u v : Int, (u - v) * (u - v) = (v - u) * (v - u) := by
+    intro u v; rw [← Int.neg_sub v u, Int.neg_mul_neg]
+  rw [h a.x, h a.y, h a.z]
+
 /-! ### `best` -/
 
 theorem best_mem {l : List CEdge} {e : CEdge} (h : best l = some e) : e ∈ l := by
@@ -176,12 +182,22 @@ theorem IsQuot.valid {t : Table} {o : Opts} {e : CEdge} (h : IsQuot t o e) : Val
   have h2 : e.b = nb.id := by rw [heq]
   exact ⟨h1 ▸ mem_ids_of_mem ha, h2 ▸ mem_ids_of_mem hb, h1 ▸ f1, h2 ▸ f2⟩
 
-/-- If both fragments of a pair have a candidate node and the nearest pair is within `max_dist`, the
-quotient graph has an edge for that pair. -/
+theorem withinMax_mono {o : Opts} {e f : CEdge} (h : e.d2 ≤ f.d2) (hf : withinMax o f = true) : withinMax o e = true := by
+  unfold withinMax at *
+  cases hm : o.maxD2 with
+  | none => rfl
+  | some m =>
+    rw [hm] at hf
+    simp only [decide_eq_true_eq] at hf ⊢
+    omega
+
+/-- If two candidate nodes of the two fragments of a pair are within `max_dist`, the quotient graph has an
+edge for that pair, and it is at most as long. -/
 theorem quotientEdges_exists {t : Table} {o : Opts} {p : Int × Int} (hp : p ∈ pairs (roots t))
     {na nb : Node} (ha : na ∈ t) (hb : nb ∈ t) (ca : isCand t o na = true) (cb : isCand t o nb = true)
-    (fa : fragOf t na.id = p.1) (fb : fragOf t nb.id = p.2) (hmax : o.maxD2 = none) :
-    ∃ e ∈ quotientEdges t o, e.fa = p.1 ∧ e.fb = p.2 := by
+    (fa : fragOf t na.id = p.1) (fb : fragOf t nb.id = p.2)
+    (hmax : withinMax o ⟨sqDist na nb, na.id, nb.id, p.1, p.2⟩ = true) :
+    ∃ e ∈ quotientEdges t o, e.fa = p.1 ∧ e.fb = p.2 ∧ e.d2 ≤ sqDist na nb := by
   have hmem : (⟨sqDist na nb, na.id, nb.id, p.1, p.2⟩ : CEdge) ∈ pairEdges
       ((cands t o).filter fun n => fragOf t n.id == p.1) ((cands t o).filter fun n => fragOf t n.id == p.2) p.1 p.2 :=
     mem_pairEdges.mpr ⟨na, mem_cands_frag.mpr ⟨ha, ca, fa⟩, nb, mem_cands_frag.mpr ⟨hb, cb, fb⟩, rfl⟩
@@ -190,12 +206,14 @@ theorem quotientEdges_exists {t : Table} {o : Opts} {p : Int × Int} (hp : p ∈
   | none => rw [best_none hbest] at hmem; simp at hmem
   | some m =>
     obtain ⟨xa, _, xb, _, heq⟩ := mem_pairEdges.mp (best_mem hbest)
-    refine ⟨m, ?_, by rw [heq], by rw [heq]⟩
+    have hle : m.d2 ≤ sqDist na nb := CEdge.le_d2 (best_le hbest _ hmem)
+    refine ⟨m, ?_, by rw [heq], by rw [heq], hle⟩
     unfold quotientEdges
     simp only [List.mem_filterMap]
     refine ⟨p, hp, ?_⟩
     rw [hbest]
-    simp only [withinMax, hmax, if_true]
+    simp only
+    rw [if_pos (withinMax_mono (by exact hle) hmax)]
 
 /-! ### counting roots and edges -/
 
@@ -380,10 +398,10 @@ theorem heal_single {t : Table} (hw : WF t) (hne : t ≠ []) {o : Opts} (hmax : 
           have ca := root_isCand (t := t) hmin hmask hmeth hpa
           have cb := root_isCand (t := t) hmin hmask hmeth hpb
           rcases mem_pairs hra hrb hab with hp | hp
-          · obtain ⟨e, he, h1, h2⟩ := quotientEdges_exists hp hna hnb ca cb fa fb hmax
+          · obtain ⟨e, he, h1, h2, _⟩ := quotientEdges_exists hp hna hnb ca cb fa fb (by simp [withinMax, hmax])
             have := kruskal_joins _ e he
             rw [h1, h2] at this; exact this
-          · obtain ⟨e, he, h1, h2⟩ := quotientEdges_exists hp hnb hna cb ca fb fa hmax
+          · obtain ⟨e, he, h1, h2, _⟩ := quotientEdges_exists hp hnb hna cb ca fb fa (by simp [withinMax, hmax])
             have := kruskal_joins _ e he
             rw [h1, h2] at this; exact this.symm
       have hq : Conn (qE (kruskal (quotientEdges t o))) (fragOf t i) (fragOf t j) :=
